@@ -36,7 +36,9 @@ pub enum Metric {
     Linf,
     Lp(f64),
 }
-const METRICS: [Metric; 5] = [Metric::L1, Metric::L2, Metric::Linf, Metric::Lp(1.5), Metric::Lp(3.0)];
+// Lp with the exponents 1 and 2 is listed besides L1/L2: implementations special-case them
+const METRICS: [Metric; 7] = [Metric::L1, Metric::L2, Metric::Linf, Metric::Lp(1.5), Metric::Lp(3.0), Metric::Lp(2.0), Metric::Lp(1.0)];
+const NM: usize = METRICS.len();
 
 impl Metric {
     fn name(self) -> String {
@@ -804,7 +806,7 @@ fn cloud_spec(c: &mut Case) -> CloudSpec {
     let idx = c.idx;
     let rng = &mut c.rng;
     let f32_ = idx % 2 == 1;
-    let metric = METRICS[((idx / 2) % 5) as usize];
+    let metric = METRICS[(idx / 2) as usize % NM];
     let shape = SHAPES[((idx / 10) % SHAPES.len() as u64) as usize];
     let dim = *[1usize, 1, 2, 2, 3, 3, 4, 5, 8, 12, 16].choose(rng).unwrap();
     let nmax = c.tier.pick(400.0, 5000.0);
@@ -1200,7 +1202,7 @@ pub fn child(args: &[String]) -> i32 {
     }
     let base: f64 = args[2].parse().unwrap();
     let p: Vec<usize> = args[3..8].iter().map(|s| s.parse().unwrap()).collect();
-    let m = METRICS[p[4] % 5];
+    let m = METRICS[p[4] % NM];
     let (_, out) = if args[1] == "f32" {
         adj_run::<f32>(base, p[0], p[1], p[2], p[3], m, args[0] == "nokd")
     } else {
@@ -1337,7 +1339,7 @@ pub fn run(ctx: &Ctx) {
         }
     };
     ctx.family("errors", 10, |c| {
-        let m = METRICS[(c.idx / 2) as usize % 5];
+        let m = METRICS[(c.idx / 2) as usize % NM];
         if c.idx % 2 == 0 { errors_case::<f64>(c, m) } else { errors_case::<f32>(c, m) }
     });
 
@@ -1364,7 +1366,7 @@ pub fn run(ctx: &Ctx) {
         c.note("points", json!(seq));
         let mut t = Tally::default();
         // n <= 3: every metric; n = 4 (thorough only): one metric per sequence, rotating
-        let rot = [METRICS[((c.idx + c.idx / 5) % 5) as usize]];
+        let rot = [METRICS[(c.idx + c.idx / NM as u64) as usize % NM]];
         let ms: &[Metric] = if seq.len() <= 3 { &METRICS } else { &rot };
         let mut r = exhaustive_case::<f64>(c, 2, &seq, ms, &mut t);
         if r.is_ok() && (seq.len() <= 2 || (c.tier == Tier::Thorough && seq.len() == 3)) {
@@ -1381,7 +1383,7 @@ pub fn run(ctx: &Ctx) {
     lap("exhaustive-2d");
     ctx.family("lattice", ctx.tier.pick(400, 1600), |c| {
         let f32_ = c.idx % 2 == 1;
-        let metric = METRICS[((c.idx / 2) % 5) as usize];
+        let metric = METRICS[(c.idx / 2) as usize % NM];
         let dim = 1 + ((c.idx / 10) % 4) as usize;
         let side = match dim {
             1 => c.rng.gen_range(2..=12),
